@@ -276,17 +276,13 @@ impl ClusterHandler for AdminCommHandler {
         //     don't confuse the commissioner across multiple rounds (see
         //     TC_CGEN_2_4, which iterates open / commission / revoke 8x).
         let removed_fabric = ctx.exchange().with_state(|state| {
-            // If RevokeCommissioning came in over a PASE session, don't
-            // drop it before we've sent the response — mark it as expired
-            // instead so it lingers just long enough for the in-flight
-            // exchange to complete, then can't accept new ones.
-            // `Failsafe::expire` does the actual `remove_pase` call.
-            let sess = ctx.exchange().id().session(&mut state.sessions);
-            let expire_sess_id = matches!(
-                sess.get_session_mode(),
-                crate::transport::session::SessionMode::Pase { .. }
-            )
-            .then(|| sess.id());
+            // If RevokeCommissioning came in over a session that the expiry
+            // terminates (a PASE session, or a session on the fabric being
+            // rolled back), don't drop it before we've sent the response —
+            // mark it as expired instead so it lingers just long enough for
+            // the in-flight exchange to complete, then can't accept new ones.
+            // `Failsafe::expire` does the actual removal.
+            let expire_sess_id = Some(ctx.exchange().id().session(&mut state.sessions).id());
 
             let removed_fabric = state.failsafe.expire(
                 &mut state.fabrics,
